@@ -58,6 +58,13 @@ pub fn dispatch(op: &str, ty: &str, args: &[Arg]) -> Option<String> {
         // the sequences for an INTEGER element type (start / stop are whole numbers): every element is the double
         // converted to the element type (seeded change C16m: the two end values were converted first)
         // logspace_a: one sequence per (start, stop, base) triple, laid out as columns
+        "linspace_a" | "geomspace_a" => {
+            let (st, sp, num, ep) = match args { [Arg::A(s1, e1), Arg::A(s2, e2), Arg::Z(n), Arg::Z(e)] =>
+                (Array::<f64>::new(e1.iter().map(|&x| x as f64).collect(), s1.clone()).ok()?, Array::<f64>::new(e2.iter().map(|&x| x as f64).collect(), s2.clone()).ok()?, *n as usize, *e == 1),
+                _ => return Some("bad".into()) };
+            let r = if op == "linspace_a" { Array::<f64>::linspace_a(&st, &sp, Some(num), Some(ep)) } else { Array::<f64>::geomspace_a(&st, &sp, Some(num), Some(ep)) };
+            Some(match r { Ok(a) => match wf_violation(&a) { Some(v) => v, None => format!("{}|{}", shape_str(&a.get_shape().unwrap()), bits(&a.get_elements().unwrap())) }, Err(e) => err_str(&e) })
+        }
         "logspace_a" => {
             let (st, sp, num, ep, base) = match args { [Arg::A(s1, e1), Arg::A(s2, e2), Arg::Z(n), Arg::Z(e), b] =>
                 (Array::<f64>::new(e1.iter().map(|&x| x as f64).collect(), s1.clone()).ok()?, Array::<f64>::new(e2.iter().map(|&x| x as f64).collect(), s2.clone()).ok()?,
